@@ -57,7 +57,7 @@ def parse_tuple(t):
 
 
 def run(module, cfg=None, env=None, workers=8, timeout=900, extra=(), simulate=None, depth=None,
-        seed=None, workdir=None, heap="6g"):
+        seed=None, workdir=None, heap="6g", spec_dir=None):
     """Run TLC on spec/<module>.tla. Returns dict(out, states, distinct, wall, rc)."""
     cfg = cfg or module + ".cfg"
     meta = tempfile.mkdtemp(prefix="tlcmeta_", dir=workdir)
@@ -74,7 +74,7 @@ def run(module, cfg=None, env=None, workers=8, timeout=900, extra=(), simulate=N
     e.update(env or {})
     t0 = time.time()
     try:
-        p = subprocess.run(cmd, cwd=SPEC_DIR, env=e, stdout=subprocess.PIPE, stderr=subprocess.STDOUT,
+        p = subprocess.run(cmd, cwd=spec_dir or SPEC_DIR, env=e, stdout=subprocess.PIPE, stderr=subprocess.STDOUT,
                            timeout=timeout, text=True)
         out, rc = p.stdout, p.returncode
     except subprocess.TimeoutExpired as ex:
